@@ -2,7 +2,7 @@
     real val.Compare / val.Equal / val.CompareVals / list lookups and writes what it observed;
     everything below is evaluated by Coq. *)
 From Coq Require Import ZArith List Bool Lia Strings.Byte.
-From YV Require Import Base.Verdict Base.Wrap Val.Model Val.Proofs.
+From YV Require Import Base.Verdict Base.Wrap Val.Model Val.Proofs Val.History.
 Import ListNotations.
 Open Scope Z_scope.
 
@@ -46,7 +46,12 @@ Inductive case :=
 | CTable (vals : list value) (signs eqs : list Z)       (* all ordered pairs, row major, packed *)
 | CPair (x y : value) (sign eq : Z)
 | CTuple (a b : key) (sign : Z) (eq : Z)                 (* CompareVals / EqualVals *)
-| CLookup (kind : nat) (rows : list key) (k : key) (found : option key).
+| CLookup (kind : nat) (rows : list key) (k : key) (found : option key)
+| CHist (elem : nat) (rows : list row) (ops : list hop) (obs : list (Z * list row)).
+   (* a stream of keyed requests through ONE live Reflect list node over a slice;
+      elem 0: []T (struct values), 1: []*T, 2: []map[string]interface{};
+      obs: after each request, what the lookup answered (1 node / 0 nil / 3 error or panic) and the
+      rows then held by the Go slice *)
    (* kind 0: Reflect slice list (sorted index + sort.Search); 1: nodeutil.Node slice (linear scan) *)
 
 Definition spec_eq_code (x y : value) : Z :=
@@ -60,6 +65,29 @@ Fixpoint spec_lookup (rows : list key) (k : key) : option key :=
   end.
 Definition spec_lex_eq_code (a b : key) : Z :=
   match spec_lex a b with Some 0 => 1 | _ => 0 end.
+
+Fixpoint rows_eqb (a b : list row) : bool :=
+  match a, b with
+  | [], [] => true
+  | (k1, t1) :: a', (k2, t2) :: b' => keys_ifeq k1 k2 && (t1 =? t2) && rows_eqb a' b'
+  | _, _ => false
+  end.
+Fixpoint trace_eqb (a b : list (Z * list row)) : bool :=
+  match a, b with
+  | [], [] => true
+  | (c1, r1) :: a', (c2, r2) :: b' => (c1 =? c2) && rows_eqb r1 r2 && trace_eqb a' b'
+  | _, _ => false
+  end.
+(** the observed trace obeys the specification step by step: each observed state is what the
+    request must make of the previously OBSERVED state *)
+Fixpoint obs_spec_ok (prev : list row) (ops : list hop) (obs : list (Z * list row)) : bool :=
+  match ops, obs with
+  | [], [] => true
+  | o :: ops', (c, rs) :: obs' =>
+      let '(c', rs') := spec_hstep prev o in
+      (c =? c') && rows_eqb rs rs' && obs_spec_ok rs ops' obs'
+  | _, _ => false
+  end.
 
 Definition classify (c : case) : verdict :=
   match c with
@@ -88,4 +116,6 @@ Definition classify (c : case) : verdict :=
                | _ => match linear_find rows k O with Some i => nth_error rows i | None => None end
                end in
       classify_gen (opt_key_eqb m found) (opt_key_eqb (spec_lookup rows k) found) None
+  | CHist _ rows ops obs =>
+      classify_gen (trace_eqb (hist_impl rows ops) obs) (obs_spec_ok rows ops obs) None
   end.
